@@ -18,6 +18,7 @@ everything outside this step shape (parallel scheduling, memory exhaustion, the 
 """
 import itertools
 import math
+import re
 
 import epick
 import ereduce
@@ -1304,3 +1305,34 @@ def run(ctx, F, rule="E-TABLE.step", kinds=("bdd", "bcdd", "zbdd", "mtbdd", "tdd
     for k in kinds:
         n += RUNNERS[k](ctx, F, rule)
     return n
+
+
+def check_zbdd_restrict_base(ctx, F, rule="E-TABLE.step.zbase"):
+    """`restrict_base` (ZBDD `restrict` once `f` has reached `Base`) turns the remaining cube into the family in which
+    every cube variable is don't-care.  The cube skips the levels of its negative literals, and *each* skipped level
+    needs its own don't-care node: the node creation sits in a loop over `level..node_level`.  (The step rule above
+    treats `restrict_base` as a builtin because of this loop.)  From MIR: every node-creating call of `restrict_base`
+    lies on a cycle whose iterator runs over an integer range."""
+    fids = [f for f in F.mir if f.startswith("oxidd_rules_zbdd::apply_rec::restrict::restrict_base") and "{closure" not in f]
+    if not ctx.anchor(rule, "oxidd_rules_zbdd::apply_rec::restrict::restrict_base", len(fids) == 1):
+        return 0
+    from lib import cfg
+    fid = fids[0]
+    m = F.mir[fid]
+    B = cfg.Body(m)
+    creators = [i for i, t in B.calls() if re.search(r"LevelView::get_or_insert$|::reduce1$|::reduce$|::reduce_borrowed$",
+                                                       (cfg.callee_decl(t) or "") + "|" + (cfg.callee_name(t) or ""))]
+    def recv_ty(t):
+        a = (t.get("a") or [{}])[0]
+        l = a.get("mv", a.get("cp"))
+        return m["locals"][l].get("ty", "") if isinstance(l, int) else ""
+    range_next = [i for i, t in B.calls() if (cfg.callee_name(t) or "").endswith("::next") and "Range<" in recv_ty(t)]
+    ok = bool(creators) and bool(range_next) and all(
+        B.can_reach(c, c) and any(B.can_reach(c, r) and B.can_reach(r, c) for r in range_next) for c in creators)
+    ctx.ob(rule, rule + ":restrict_base", ok,
+           "%s (%s): %s" % (F.nice(fid), F.where(fid),
+                            "don't-care nodes are created in a loop over the skipped levels" if ok else
+                            "a don't-care node is created outside a loop over the skipped levels (%d creating call(s), %d range "
+                            "iteration(s)): when the cube skips several adjacent levels only one of them becomes don't-care"
+                            % (len(creators), len(range_next))))
+    return 1
